@@ -248,6 +248,20 @@ class Obligation:
 
 
 _fresh = itertools.count()
+
+
+class _Counter:
+    """bound-variable name counter, reset at the start of every path so that queries are identical across runs / workers"""
+
+    def __init__(self):
+        self.n = 0
+
+    def __next__(self):
+        self.n += 1
+        return self.n
+
+
+QCOUNT = _Counter()
 _qcache = {}
 
 
@@ -274,8 +288,10 @@ class Ex:
     """One execution of the function under a decision prefix."""
 
     FEAS_TIMEOUT_MS = 1000
+    FEAS_RLIMIT = 400000
 
     def __init__(self, prefix=()):
+        QCOUNT.n = 0
         self.prefix = list(prefix)
         self.trace, self.labels, self.pending = [], [], []
         self.pc = []
@@ -300,7 +316,7 @@ class Ex:
         really means infeasible, and anything else is explored."""
         self.stats["feas_checks"] += 1
         s = z3.Solver()
-        s.set(timeout=self.FEAS_TIMEOUT_MS)
+        s.set(timeout=self.FEAS_TIMEOUT_MS * 5, rlimit=self.FEAS_RLIMIT)  # rlimit: deterministic budget (verdicts do not depend on load)
         for c in self.pc:
             if not _has_quantifier(c):
                 s.add(c)
